@@ -56,6 +56,9 @@ ASSUMPTIONS = [
 ]
 
 
+C05_KEYS = ("value", "accepted_nonconforming", "matrix_shape_vs_construction")
+
+
 def _inputs(rng, n, cplx, k=2):
     xs = [np.eye(n, dtype=np.complex128)[j] for j in rng.permutation(n)[: min(n, k)]]
     xs.append(T.vals(rng, (n,), cplx).astype(np.complex128))
@@ -220,6 +223,8 @@ def search(ctx, model, why):
         e = T.tree(ctx.rng, int(ctx.rng.integers(2, 6)), insh, outsh, dt_of, p_bad=0.0)
         r = orc({"e": e})
         ctx.count("oracle-search:cases")
+        # C05 is about the denotation; declared-vs-returned dtypes / shapes are C12's
+        r = {k: v for k, v in (r or {}).items() if k in C05_KEYS}
         if r:
             return {"e": e, "failing": r}
     return None
